@@ -366,7 +366,7 @@ class OptionalTaskForceSchedule(TaskConstraint):
         super().__init__(**data)
 
         if not self.task.optional:
-            raise TypeError(f"Task {self.task.name} must be optional.")
+            self._refuse(TypeError(f"Task {self.task.name} must be optional."))
 
         self.set_z3_assertions(self.task._scheduled == self.to_be_scheduled)
 
@@ -381,7 +381,7 @@ class OptionalTaskConditionSchedule(TaskConstraint):
         super().__init__(**data)
 
         if not self.task.optional:
-            raise TypeError(f"Task {self.task.name} must be optional.")
+            self._refuse(TypeError(f"Task {self.task.name} must be optional."))
 
         self.set_z3_assertions(
             z3.If(
@@ -402,7 +402,7 @@ class OptionalTasksDependency(TaskConstraint):
         super().__init__(**data)
 
         if not self.task_2.optional:
-            raise TypeError(f"Task {self.task_2.name} must be optional.")
+            self._refuse(TypeError(f"Task {self.task_2.name} must be optional."))
 
         self.set_z3_assertions(self.task_1._scheduled == self.task_2._scheduled)
 
@@ -426,8 +426,10 @@ class ForceScheduleNOptionalTasks(TaskConstraint):
         # actually optional
         for task in self.list_of_optional_tasks:
             if not task.optional:
-                raise TypeError(
-                    "The task {task.name} must expilicitly be set as optional."
+                self._refuse(
+                    TypeError(
+                        "The task {task.name} must expilicitly be set as optional."
+                    )
                 )
         # all scheduled variables to take into account
         sched_vars = [task._scheduled for task in self.list_of_optional_tasks]
